@@ -9,7 +9,7 @@ import io
 import math
 from fractions import Fraction
 
-from vcheck import Case, gnlist, gq
+from vcheck import Case, gnlist, gq, gbool
 import tgen
 from props.c10 import gqmat, gqlist
 
@@ -43,6 +43,9 @@ EXPLANATION = ("op mu_model ties the model the theorems are about to the code: i
 # ---------------------------------------------------------------- generators
 SHAPES_Q = [(3, 2), (2, 2, 2), (4, 3, 2)]
 SHAPES_T = SHAPES_Q + [(2, 3), (4, 3), (3, 2, 2), (2, 3, 2), (1, 3, 2), (3, 3)]
+
+
+OVERSPEC_SHAPES = [(2, 2, 2), (1, 3, 2), (3, 2, 2), (2, 2, 1, 2), (1, 3, 2), (2, 3), (3, 1, 2)]
 
 
 def _counts(rng, shp, kind):
@@ -97,6 +100,68 @@ def gen_cases(rng, tier):
                         cases.append(Case("pqnr_result", a, True))
                     else:
                         cases.append(Case("cp_apr", a, True))
+    # over-specified rank on (near) rank-1 / empty-slice count data with singleton modes, pdnr and pqnr, maxiters 1 and 2 from the
+    # same fractional guess, dense AND sparse holder: the projected (quasi-)Newton row solves drive whole components to exactly 0
+    # in some mode k >= 1 and the run stops in that sweep — the state in which the shortcut "- sum(factor_0)" of the reported
+    # objective needs the dead component's weight to be 0 (C11_mass_factor0_dead)
+    for alg, cnt in (("pdnr", 160 if big else 90), ("pqnr", 120 if big else 60)):
+        for rep in range(cnt):
+            shp = rng.choice(OVERSPEC_SHAPES)
+            d = len(shp)
+            fam = rng.choice(["lr", "lr", "lr0", "empty2"])
+            subs = tgen.all_subs(shp)
+            if fam in ("lr", "lr0"):
+                vs = [[rng.randint(0 if fam == "lr" else 1, 3) for _ in range(sz)] for sz in shp]
+                if fam == "lr0":
+                    for n in range(1, d):
+                        if shp[n] > 1 and rng.random() < 0.7:
+                            vs[n][rng.randrange(shp[n])] = 0
+                data = [math.prod(vs[n][sb[n]] for n in range(d)) for sb in subs]
+            else:
+                data = [(rng.randint(1, 3) if rng.random() < 0.7 else 0) for _ in subs]
+                for m in range(1, d):
+                    if shp[m] > 1 and rng.random() < 0.7:
+                        j = rng.randrange(shp[m])
+                        data = [0 if sb[m] == j else v for sb, v in zip(subs, data)]
+            if not any(data):
+                data[0] = 2
+            rank = rng.choice([2, 3, 3])
+            gden = rng.choice([10, 10, 4])
+            guess = [[[rng.randint(1, gden + 1) for _ in range(rank)] for _ in range(sz)] for sz in shp]
+            a = {"shape": list(shp), "data": data, "rank": rank, "gw": [1] * rank, "gf": guess, "gden": gden, "alg": alg,
+                 "opts": {"precompinds": rng.random() < 0.5} if rng.random() < 0.5 else {},
+                 "variants": [{"maxiters": 1}, {"maxiters": 2}],
+                 "order": rng.choice(["sorted", "random"]), "sseed": rng.randrange(10 ** 6)}
+            cases.append(Case("overspec", a, True))
+    # guesses with an all-zero row over a slice that holds positive counts, MU stopped before (or configured without) the
+    # "inadmissible zero" repair: the returned model gives probability 0 to an observed count, the truthful objective is -inf —
+    # for the dense and the sparse holder alike
+    for rep in range(40 if big else 16):
+        shp = rng.choice([(3, 2), (2, 2, 2), (2, 3), (3, 2, 2), (1, 3, 2)])
+        d = len(shp)
+        subs = tgen.all_subs(shp)
+        data = [(rng.randint(1, 3) if rng.random() < 0.7 else 0) for _ in subs]
+        m = rng.randrange(d)
+        j = rng.randrange(shp[m])
+        if not any(v for sb, v in zip(subs, data) if sb[m] == j):
+            data[[k for k, sb in enumerate(subs) if sb[m] == j][0]] = 2
+        rank = rng.randint(1, 2)
+        guess = [[[rng.randint(1, 3) for _ in range(rank)] for _ in range(sz)] for sz in shp]
+        guess[m][j] = [0] * rank
+        a = {"shape": list(shp), "data": data, "rank": rank, "gw": [rng.randint(1, 2) for _ in range(rank)], "gf": guess, "alg": "mu",
+             "opts": {}, "variants": [{"maxiters": 1}, {"maxiters": 1, "maxinneriters": 3}, {"maxiters": rng.choice([2, 5]), "kappa": 0.0}],
+             "order": rng.choice(["sorted", "random"]), "sseed": rng.randrange(10 ** 6)}
+        cases.append(Case("zero_row", a, True))
+    # calculate_pi + calculate_phi called directly on a sparse and a dense holder of the same counts: the sparse-branch model of
+    # C11_phi_sparse and the dense definition, evaluated exactly in Qc, against both
+    for rep in range(24 if big else 8):
+        shp = rng.choice([(3, 2), (2, 2, 2), (2, 3, 2), (1, 3, 2), (4, 3)])
+        data = _counts(rng, shp, rng.choice(["random", "empty_slice", "zero_fibres"]))
+        rank = rng.randint(1, 3)
+        guess = [[[rng.randint(0, 3) for _ in range(rank)] for _ in range(sz)] for sz in shp]
+        cases.append(Case("phi_sp", {"shape": list(shp), "data": data, "rank": rank, "gw": [1] * rank, "gf": guess, "gden": rng.choice([1, 2]),
+                                     "n": rng.randrange(len(shp)), "order": rng.choice(["sorted", "reversed", "random"]),
+                                     "sseed": rng.randrange(10 ** 6)}, True))
     # the executable MU model of Model/C11Apr.v run side by side (exact rationals) — small inputs, shallow iteration depth
     for shp in ([(3, 2), (2, 2, 2), (2, 3)] if big else [(3, 2), (2, 2, 2)]):
         for rep in range(6 if big else 2):
@@ -142,40 +207,95 @@ def _loglik(shape, data, w, fs):
     return f - math.fsum(m), math.fsum(m)
 
 
-def _run(ttb, np, a, maxiters):
+def _run(ttb, np, a, maxiters, sparse=None):
     import random
-    if a["sparse"]:
+    if (a["sparse"] if sparse is None else sparse):
         subs, vals = tgen.dense_to_sparse(a["shape"], a["data"], random.Random(a["sseed"]), a["order"])
         X = tgen.mk_sptensor(ttb, np, a["shape"], subs, vals)
     else:
         X = tgen.mk_tensor(ttb, np, a["shape"], a["data"])
     d = len(a["shape"])
-    init = ttb.ktensor([np.array(a["gf"][n], dtype=float).reshape((a["shape"][n], a["rank"])) for n in range(d)],
+    gden = float(a.get("gden", 1))
+    init = ttb.ktensor([np.array(a["gf"][n], dtype=float).reshape((a["shape"][n], a["rank"])) / gden for n in range(d)],
                        np.array(a["gw"], dtype=float), copy=True)
+    # snapshots of the caller's objects ("data and caller's guess are not modified")
+    snap_f = [np.array(U, copy=True) for U in init.factor_matrices]
+    snap_w = np.array(init.weights, copy=True)
+    snap_x = (np.array(X.subs, copy=True), np.array(X.vals, copy=True)) if isinstance(X, ttb.sptensor) else np.array(X.data, copy=True)
     with contextlib.redirect_stdout(io.StringIO()):
         M, M0, out = ttb.cp_apr(X, a["rank"], algorithm=a["alg"], maxiters=maxiters, init=init, printitn=0, printinneritn=0,
                                 stoptol=1e-4, **a["opts"])
+    pure = (all(np.array_equal(U, V) for U, V in zip(init.factor_matrices, snap_f)) and np.array_equal(init.weights, snap_w)
+            and M is not init and all(U is not V for U in M.factor_matrices for V in init.factor_matrices))
+    if isinstance(X, ttb.sptensor):
+        pure = pure and np.array_equal(X.subs, snap_x[0]) and np.array_equal(X.vals, snap_x[1])
+    else:
+        pure = pure and np.array_equal(X.data, snap_x)
+    out = dict(out)
+    out["pure"] = bool(pure)
     return M, out
+
+
+def _guess_floats(a):
+    gden = float(a.get("gden", 1))
+    return [float(x) for x in a["gw"]], [[[float(x) / gden for x in row] for row in U] for U in a["gf"]]
+
+
+def _obs_result(np, a, M, out):
+    w = [float(x) for x in np.asarray(M.weights).ravel()]
+    fs = [[[float(x) for x in row] for row in np.asarray(U)] for U in M.factor_matrices]
+    ll, mass = _loglik(a["shape"], a["data"], w, fs)
+    gw, gf = _guess_floats(a)
+    ll0, _ = _loglik(a["shape"], a["data"], gw, gf)
+    return {"weights": [tgen.exact(x) for x in w], "factors": [[[tgen.exact(x) for x in row] for row in U] for U in fs],
+            "obj": tgen.exact(out["obj"]), "ll": tgen.exact(ll), "ll0": tgen.exact(ll0), "mass": tgen.exact(mass),
+            "nkkt": len(out["kktViolations"]), "ninner": len(out["nInnerIters"]), "ntimes": len(out["times"]),
+            "pure": out["pure"]}
 
 
 def run_impl(c):
     import numpy as np
     import pyttb as ttb
     a = c.args
+    if c.op == "phi_sp":
+        import random
+        from pyttb import cp_apr as apr
+        try:
+            subs, vals = tgen.dense_to_sparse(a["shape"], a["data"], random.Random(a["sseed"]), a["order"])
+            S = tgen.mk_sptensor(ttb, np, a["shape"], subs, vals)
+            X = tgen.mk_tensor(ttb, np, a["shape"], a["data"])
+            d = len(a["shape"])
+            K = ttb.ktensor([np.array(a["gf"][m], dtype=float).reshape((a["shape"][m], a["rank"])) / float(a["gden"]) for m in range(d)],
+                            np.array(a["gw"], dtype=float), copy=True)
+            out = {}
+            for nm, D in (("sp", S), ("dense", X)):
+                Pi = apr.calculate_pi(D, K, a["rank"], a["n"], d)
+                Phi = apr.calculate_phi(D, K, a["rank"], a["n"], Pi, 1e-10)
+                out[nm] = [[tgen.exact(x) for x in row] for row in np.asarray(Phi).reshape((a["shape"][a["n"]], a["rank"]))]
+            return out
+        except Exception as ex:
+            return {"exc": type(ex).__name__, "msg": str(ex)[:200]}
+    if c.op in MULTI_OPS:
+        runs = []
+        for sparse in (False, True):
+            for var in a["variants"]:
+                var = dict(var)
+                mi = var.pop("maxiters")
+                try:
+                    M, out = _run(ttb, np, dict(a, opts=dict(a["opts"], **var)), mi, sparse)
+                    r = _obs_result(np, a, M, out)
+                except Exception as ex:
+                    r = {"exc": type(ex).__name__, "msg": str(ex)[:200]}
+                r["sparse"], r["maxiters"], r["variant"] = sparse, mi, var
+                runs.append(r)
+        return {"runs": runs}
     try:
         kkts, res = [], None
         for mi in (1, 2, 3):
             M, out = _run(ttb, np, a, mi)
             kkts.append([tgen.exact(x) for x in np.asarray(out["kktViolations"]).ravel()])
             if mi == a["maxiters"]:
-                w = [float(x) for x in np.asarray(M.weights).ravel()]
-                fs = [[[float(x) for x in row] for row in np.asarray(U)] for U in M.factor_matrices]
-                ll, mass = _loglik(a["shape"], a["data"], w, fs)
-                gw = [float(x) for x in a["gw"]]
-                ll0, _ = _loglik(a["shape"], a["data"], gw, [[[float(x) for x in row] for row in U] for U in a["gf"]])
-                res = {"weights": [tgen.exact(x) for x in w], "factors": [[[tgen.exact(x) for x in row] for row in U] for U in fs],
-                       "obj": tgen.exact(out["obj"]), "ll": tgen.exact(ll), "ll0": tgen.exact(ll0), "mass": tgen.exact(mass),
-                       "nkkt": len(out["kktViolations"]), "ninner": len(out["nInnerIters"]), "ntimes": len(out["times"])}
+                res = _obs_result(np, a, M, out)
         res["kkts"] = kkts
         return res
     except Exception as ex:
@@ -191,12 +311,67 @@ def _finite(x):
     return not isinstance(x, str)
 
 
+MULTI_OPS = ("overspec", "zero_row")
+
+
+def _gqsparse(shape, subs, vals):
+    from vcheck import gnmat
+    return f"(mkSp {gnlist(shape)} {gnmat(subs)} {gqlist(vals)})"
+
+
+def _known_f1(o):
+    return o.get("exc") == "AssertionError" and "L-BFGS" in o.get("msg", "")
+
+
+def _e_objective(o, vs_guess=True):
+    """reported objective = independently recomputed log-likelihood of the RETURNED model; infinities compared explicitly"""
+    e = ""
+    if _finite(o["obj"]) and _finite(o["ll"]):
+        e += f" && qclose tol9 {gq(o['obj'])} {gq(o['ll'])}"
+        if vs_guess and _finite(o["ll0"]):       # at least as likely as the starting guess
+            e += f" && qleb {gq(o['ll0'])} ({gq(o['ll'])} + tol6 * qmax q1 (qabs {gq(o['ll'])}))"
+    elif o["obj"] != o["ll"]:
+        e += " && false"           # one of them is -inf / nan and the other is not the same
+    elif o["ll"] != "-inf":
+        e += " && false"           # +inf / nan objective
+    elif vs_guess and _finite(o["ll0"]):
+        e += " && false"           # the guess had finite likelihood, the result -inf
+    return e
+
+
+def _e_model(a, o):
+    flat = list(o["weights"]) + [x for U in o["factors"] for row in U for x in row]
+    if not all(_finite(x) for x in flat) or not _finite(o["mass"]):
+        return "false"
+    K = _gk(o)
+    return f"kwell {K} {gnlist(a['shape'])} {a['rank']} && knonneg {K} && mass_ok tol9 {K} {gq(o['mass'])} && {gbool(o['pure'])}"
+
+
 def coq_check(c, o):
     a = c.args
+    if c.op == "phi_sp":
+        import random
+        if "exc" in o:
+            return "false"
+        if not all(_finite(x) for m in (o["sp"], o["dense"]) for row in m for x in row):
+            return "false"
+        subs, vals = tgen.dense_to_sparse(a["shape"], a["data"], random.Random(a["sseed"]), a["order"])
+        K = f"(mkK {gqlist(a['gw'])} [" + "; ".join(gqmat([[Fraction(x, a['gden']) for x in row] for row in f]) for f in a["gf"]) + "])"
+        return (f"phi_sp_ok tol9 {gq(Fraction(1e-10))} {_gqsparse(a['shape'], subs, vals)} {tgen.gqdense(a['shape'], a['data'])} "
+                f"{a['n']} {K} {gqmat(o['sp'])} {gqmat(o['dense'])}")
+    if c.op in MULTI_OPS:
+        parts = []
+        for r in o["runs"]:
+            if "exc" in r:
+                if a["alg"] == "pqnr" and _known_f1(r):
+                    continue                 # known finding C11-F1 (reported by op pqnr_completes)
+                return "false"
+            parts.append("(" + _e_model(a, r) + _e_objective(r) + ")")
+        return " && ".join(parts) if parts else None
     if c.op == "pqnr_completes":
         return "false" if "exc" in o else "true"
     if "exc" in o:
-        return None if (c.op == "pqnr_result" and o["exc"] == "AssertionError" and "L-BFGS" in o.get("msg", "")) else "false"
+        return None if (c.op == "pqnr_result" and _known_f1(o)) else "false"
     flat = list(o["weights"]) + [x for U in o["factors"] for row in U for x in row]
     if not all(_finite(x) for x in flat) or not all(_finite(x) for k in o["kkts"] for x in k) or not _finite(o["mass"]):
         return "false"
@@ -208,17 +383,8 @@ def coq_check(c, o):
         G = f"(mkK {gqlist(a['gw'])} [" + "; ".join(gqmat(f) for f in a["gf"]) + "])"
         kk = gqlist(o["kkts"][a["maxiters"] - 1])
         return (f"mu_model_ok tol9 {gq(ex(1e-10))} {gq(ex(op['kappa']))} {gq(ex(op['kappatol']))} {gq(ex(1e-4))} "
-                f"{op['maxinneriters']} {X} {G} {a['maxiters']} {K} {kk}")
-    e = f"kwell {K} {gnlist(a['shape'])} {a['rank']} && knonneg {K} && mass_ok tol9 {K} {gq(o['mass'])}"
-    # objective
-    if _finite(o["obj"]) and _finite(o["ll"]):
-        e += f" && qclose tol9 {gq(o['obj'])} {gq(o['ll'])}"
-        if _finite(o["ll0"]):       # at least as likely as the starting guess
-            e += f" && qleb {gq(o['ll0'])} ({gq(o['ll'])} + tol6 * qmax q1 (qabs {gq(o['ll'])}))"
-    elif o["obj"] != o["ll"]:
-        e += " && false"
-    elif _finite(o["ll0"]):
-        e += " && false"           # the guess had finite likelihood, the result -inf
+                f"{op['maxinneriters']} {X} {G} {a['maxiters']} {K} {kk} && {gbool(o['pure'])}")
+    e = _e_model(a, o) + _e_objective(o)
     # bookkeeping
     k1, k2, k3 = (gqlist(k) for k in o["kkts"])
     kk = gqlist(o["kkts"][a["maxiters"] - 1])
@@ -230,6 +396,26 @@ def coq_check(c, o):
 # ---------------------------------------------------------------- brute-force oracle
 def oracle(c, o):
     a = c.args
+    if c.op == "phi_sp":
+        if "exc" in o:
+            return f"calculate_pi/calculate_phi raised {o['exc']}: {o.get('msg')}"
+        sp, de = o["sp"], o["dense"]
+        if any((not _finite(x)) or (not _finite(y)) or abs(float(x) - float(y)) > 1e-9 * max(1.0, abs(float(y)))
+               for rs, rd in zip(sp, de) for x, y in zip(rs, rd)):
+            return "Phi computed from the sparse holder differs from Phi computed from the dense holder of the same counts"
+        return None
+    if c.op in MULTI_OPS:
+        for r in o["runs"]:
+            if "exc" in r and a["alg"] == "pqnr" and _known_f1(r):
+                continue
+            w = _oracle_run(a, r, check_kkts=False)
+            if w:
+                return f"{'sparse' if r['sparse'] else 'dense'} data, maxiters={r['maxiters']} {r.get('variant') or ''}: {w}"
+        return None
+    return _oracle_run(a, o)
+
+
+def _oracle_run(a, o, check_kkts=True):
     if "exc" in o:
         return f"admissible request raised {o['exc']}: {o.get('msg')}"
     flat = list(o["weights"]) + [x for U in o["factors"] for row in U for x in row]
@@ -240,10 +426,14 @@ def oracle(c, o):
     if [len(U) for U in o["factors"]] != a["shape"] or any(len(row) != a["rank"] for U in o["factors"] for row in U) \
             or len(o["weights"]) != a["rank"]:
         return "returned model has the wrong shape or rank"
-    if _finite(o["obj"]) != _finite(o["ll"]) or (_finite(o["obj"]) and abs(float(o["obj"]) - float(o["ll"])) > 1e-8 * max(1.0, abs(float(o["ll"])))):
+    if _finite(o["obj"]) != _finite(o["ll"]) or (not _finite(o["obj"]) and o["obj"] != o["ll"]) or (_finite(o["obj"]) and abs(float(o["obj"]) - float(o["ll"])) > 1e-8 * max(1.0, abs(float(o["ll"])))):
         return f"reported objective {o['obj'] if not _finite(o['obj']) else float(o['obj'])} but the log-likelihood of the returned model is {o['ll'] if not _finite(o['ll']) else float(o['ll'])}"
     if _finite(o["ll0"]) and (not _finite(o["ll"]) or float(o["ll"]) < float(o["ll0"]) - 1e-6 * max(1.0, abs(float(o["ll0"])))):
         return f"result (log-likelihood {o['ll']}) is less likely than the starting guess ({float(o['ll0'])})"
+    if not o.get("pure", True):
+        return "cp_apr modified the data or the caller's starting guess (or returned an alias of it)"
+    if not check_kkts:
+        return None
     for mi, k in enumerate(o["kkts"], 1):
         if not (1 <= len(k) <= mi):
             return f"maxiters={mi}: {len(k)} KKT entries"
